@@ -77,6 +77,7 @@ func (x *Exec) builtin(name string, e *ast.CallExpr, st *State) []Val {
 		k2t := mk(k2.Name, SInt)
 		st.assume(Forall([]BoundVar{k2}, Implies(Or(Lt(k2t, doff), Ge(k2t, Add(doff, n))),
 			Eq(Select(na, k2t), Select(darr, k2t)))))
+		x.recordWrite(st, hn, slReg(dst.T), nil, nil, nil, e)
 		st.heaps[hn] = Store(h, slReg(dst.T), na)
 		return []Val{{T: n, Ty: tyInt}}
 	case "panic":
@@ -161,7 +162,12 @@ func (x *Exec) appendCall(e *ast.CallExpr, st *State) Val {
 	k3t := mk(k3.Name, SInt)
 	st.assume(Implies(fits, Forall([]BoundVar{k3}, Implies(Or(Lt(k3t, Add(oldOff, oldLen)), Ge(k3t, Add(oldOff, newLen))),
 		Eq(Select(na, k3t), Select(oldArr, k3t))))))
-	st.heaps[hn] = Store(h, reg, na)
+	// A nil slice has capacity 0, so "fits" with a nil slice means nothing is
+	// appended; direct that no-op write to the unused fresh region so that
+	// region 0 is never written.
+	regW := Ite(And(fits, Eq(oldReg, IntLit(0))), freshReg, reg)
+	x.recordWrite(st, hn, regW, nil, nil, nil, e)
+	st.heaps[hn] = Store(h, regW, na)
 	// appending nothing to nil yields nil
 	res := mkSlice(reg, off, newLen, ncap)
 	return Val{T: res, Ty: ty}
